@@ -671,6 +671,7 @@ func (s *SendMessageWithRetryAction) Execute(services *SwapServices, swap *SwapD
     if isdev.FastTests() {
         retryDur = 1 * time.Second
     }
+    retryDur = verifRetryInterval(retryDur)
     rm := messages.NewRedundantMessenger(services.messenger, retryDur)
 	err := services.messengerManager.AddSender(swap.GetId().String(), rm)
 	if err != nil {
@@ -942,6 +943,7 @@ func (p *ValidateTxAndPayClaimInvoiceAction) Execute(services *SwapServices, swa
 		interval = 1 * time.Second
 	}
 
+	retryTime, interval = verifPayTiming(retryTime, interval)
 	ticker := time.NewTicker(interval)
 	defer ticker.Stop()
 
